@@ -3,6 +3,7 @@
 import json, os
 HERE = os.path.dirname(os.path.dirname(os.path.abspath(__file__)))
 HOOK_COMMITS = ["1c683d2", "b5da747", "ff97915", "47ff84c"]
+FIX_COMMITS = ["871fcdb", "417869c"]
 CHECKS = {
  "C09": dict(level="model_checking", design="3/C09",
    technique="TLC exhaustive model checking of SecretStream.tla + trace validation (TLC) of recorded real executions + TLC-evaluated byte-level oracle",
@@ -33,6 +34,10 @@ CHECKS["C18"] = dict(level="model_checking", design="3/C18",
    technique="TLC exhaustive model checking of the rejection sampler (RandomSource.tla, 6-bit words) + trace validation (TLC, real 32-bit arithmetic) of recorded sampler / generator executions under a scripted random source",
    text="TLC explores every bound 0..63 and every sequence of up to two draws of the sampler state machine at word size 6 and checks range, first-accepted-draw, no-draw-for-n<2 and exact uniformity of the accepted set (the invariant that separates the right threshold from r <= min or a wrong modulus). The same state machine, instantiated with exact 32-bit arithmetic on BigNat, validates traces of the real randombytes_uniform under a scripted source (public API, uniform = NULL): structured bounds (0,1,2,2^k+-1,2^31+-1,2^32-1,random) x draws placed at the threshold -1/0/+1, including how many draws were consumed. Every generating API (45: all keygens, key pairs, scalar/point generators, secretstream header, sealed box, password-hash strings) is run under three scripts, twice with the same bytes and once with perturbed bytes, and TLC checks request sizes, secret = served bytes (scalars: the rejection loop on L computed in the spec), salt encoded in the hash string, reproducibility and sensitivity; the deterministic generator is compared with the ChaCha20-IETF keystream under 'LibsodiumDRG' computed by TLC at ~60 lengths up to 1100 bytes for two seeds.",
    note="Trusted: TLC; the scripted source sees every request because it is the installed implementation. Public keys/points as functions of the served bytes are checked under C05-C07, not here.")
+CHECKS["C19"] = dict(level="model_checking", design="3/C19",
+   technique="TLC model checking of Init.tla (N threads, safety + liveness under weak fairness) + trace validation (TLC) of hook-recorded real sodium_init races; ThreadSanitizer as observer for the race-freedom half",
+   text="TLC explores every interleaving of 3 (thorough: also 5) threads stepping through sodium_init one action per step taken under the lock (lock, check, cpu, stir, alloc, eight picks, set-initialised, unlock, return, use) and checks mutual exclusion, once-only initialisation, no-partial-initialisation-visible-after-return, return values (exactly one 0, the rest 1) and termination under weak fairness; three wrong designs (flag set first + unlocked check, unlock before the picks, flag never set) must violate them. The real library is raced in a fresh process per trial (2..16 threads behind a barrier, seeded spins, 5 CPU masks, 2-3 builds) with the guarded hook reporting every step under the lock stamped by a global sequence number, and TLC must explain every recorded trial as a behaviour of Init with the reported return values; a thread returning without the lock steps, a step while another thread is inside, a return before initialisation is complete or two initialisations are rejected whatever the timing was. Race freedom of the rest of the API is observed with ThreadSanitizer on a 20-family workload with the default and the internal random source, and per-thread results are compared with a sequential run.",
+   note="Trusted: TLC; the hook's atomic sequence counter; ThreadSanitizer's happens-before analysis for the second half (this half is observer-based exploration of the executed workload, not model checking: TLA+ cannot see unordered memory accesses). Sequentially consistent memory in the model.")
 NOT_YET = {}
 def main():
     props = [json.loads(l) for l in open(os.path.join(HERE, "properties.jsonl"))]
